@@ -170,7 +170,9 @@ def tlc(ctx, module, cfg, out=None, workers=NCPU, env=None, heap="6g", simulate=
     with open(cfgp, "w") as f:
         f.write(cfg)
     out = out or ctx.path("tlc", tag + ".out")
-    cmd = ["java", "-XX:+UseParallelGC", "-Xmx" + heap, "-Xss16m", "-cp", JAR, "tlc2.TLC", "-workers", str(workers),
+    jtmp = ctx.path("tlc", "jtmp", "x")[:-2]          # TLC unpacks its standard modules into java.io.tmpdir: keep that inside the
+    os.makedirs(jtmp, exist_ok=True)                  # check's scratch directory, which is removed at exit
+    cmd = ["java", "-XX:+UseParallelGC", "-Djava.io.tmpdir=" + jtmp, "-Xmx" + heap, "-Xss16m", "-cp", JAR, "tlc2.TLC", "-workers", str(workers),
            "-metadir", ctx.path("tlc", tag + ".md", "x")[:-2], "-noGenerateSpecTE", "-config", cfgp]
     if simulate:
         cmd += ["-simulate", simulate]
